@@ -81,7 +81,7 @@ CLAIMED = {
  "C08": dict(
   level="other",
   technique="static analysis: abstract interpretation of go/ssa (linear constraints, exact fixed-width wrap-around) of every encoder with per-call-string narrowing obligations and an error-discipline rule",
-  text="Decides two structural clauses for every value at once: NARROW - every fixed-width operation in the universe of the 15 packet Marshal methods and of every helper encoder (each analysed as a root with an unconstrained receiver) that can lose information (conversion to a narrower integer, wrapping fixed-width arithmetic, low-bit mask) is shown not to lose any on a path that returns a nil error: the operand is entailed to fit at the operation, or it is a byte extraction whose dropped bits are emitted by a sibling conversion, or its pre-operation value (ghost) is entailed to fit at every success return (a later guard rejected the rest); ERR - in every function of that universe, at each return with a nil error the error of every call it made is entailed nil, so no encoder error is dropped and a packet-level success implies success of every helper. LIMIT - with a field fixed exactly at each of 12 wire limits (31 reports/chunks/sources, 255-octet texts, 2^24-1 lost, 255 REMB SSRCs, 16384 metric blocks, 4-octet APP name, count/subtype 31) not every return of the encoder is an error return (no over-rejection). 14 sites where a bounded field is deliberately cut to its width are open findings F15a-n. Level other: float-derived values (REMB mantissa) and OR-overlap of bit fields are not covered.",
+  text="Decides two structural clauses for every value at once: NARROW - every fixed-width operation in the universe of the 15 packet Marshal methods and of every helper encoder (each analysed as a root with an unconstrained receiver) that can lose information (conversion to a narrower integer, wrapping fixed-width arithmetic, low-bit mask) is shown not to lose any on a path that returns a nil error: the operand is entailed to fit at the operation, or it is a byte extraction whose dropped bits are emitted by a sibling conversion, or its pre-operation value (ghost) is entailed to fit at every success return (a later guard rejected the rest); ERR - in every function of that universe, at each return with a nil error the error of every call it made is entailed nil, so no encoder error is dropped and a packet-level success implies success of every helper. LIMIT - with a field fixed exactly at each of 12 wire limits (31 reports/chunks/sources, 255-octet texts, 2^24-1 lost, 255 REMB SSRCs, 16384 metric blocks, 4-octet APP name, count/subtype 31) not every return of the encoder is an error return (no over-rejection). CLASS - RecvDelta.Marshal evaluated by the symbolic-sum engine with RecvDelta.Type fixed to 0,1,2,3: every nil-error return yields exactly the wire size of the class (small delta 1 octet, large delta 2) and a Type without a wire form has no nil-error return, so an out-of-range small delta cannot be widened quietly while the packet encoder reserves one octet. 14 sites where a bounded field is deliberately cut to its width are open findings F15a-n. Level other: float-derived values (REMB mantissa) and OR-overlap of bit fields are not covered.",
   note="Trusted: go/ssa, checker/num, checker/effects (purity of opaque helpers, determinism of size functions), frozen tables c08SignedWire (1 entry) and c08Triaged (2 entries keyed by root and function, each with a reason and required to match an undecided site); mask sites carry semantic keys (owner function, field, width). Size-domain assumption as in C05.",
   design="DESIGN.md §2 C08"),
  "C18": dict(
